@@ -189,12 +189,22 @@ def is_sequence_type(value: str, parser: ta.XPathParserType | None = None) -> bo
             else:
                 return is_st(st[6:-1])
 
-        elif st.startswith('element(') and st.endswith(')'):
+        elif st == 'namespace-node()':
+            return not parser or parser.version >= '3.0'
+
+        elif st.startswith('processing-instruction(') and st.endswith(')'):
+            target = st[23:-1]
+            if target[:1] in ('"', "'"):
+                return len(target) > 1 and target[-1] == target[0]
+            return Patterns.extended_qname.match(target) is not None and ':' not in target
+
+        elif st.startswith(('element(', 'attribute(')) and st.endswith(')'):
+            k = st.index('(') + 1
             if ',' not in st:
-                return Patterns.extended_qname.match(st[8:-1]) is not None
+                return Patterns.extended_qname.match(st[k:-1]) is not None
 
             try:
-                arg1, arg2 = st[8:-1].split(', ')
+                arg1, arg2 = st[k:-1].split(', ')
             except ValueError:
                 return False
             else:
